@@ -188,6 +188,13 @@ CONTROLS = [
     ('x3-merge-key-not-shifted', 'X3', 'syn', ':merge', [(PPF, '            range.offset(base);\n            origin.range.offset(base);', '            origin.range.offset(base);', 1)]),
     ('x12-search-continues-after-hit', 'X12', 'syn', 'search-first-hit', [(PPF, '                            path = new_path;\n                            break;', '                            path = new_path;', 1)]),
     ('x12-search-ignores-literal-path', 'X12', 'syn', 'search-precondition', [(PPF, 'if path.is_relative() && !path.exists() {', 'if path.is_relative() {', 1)]),
+    ('x7-skip-list-admits-unlocated-nodes', 'X7', 'syn', 'skip-list-admits-unlocated-nodes', [(PPF,
+        '        let mut have_locate = false;\n        for x in node.clone() {\n            if let RefNode::Locate(_) = x {\n                have_locate = true;\n            }\n        }\n        if have_locate {\n            self.nodes.push(node);\n        }',
+        '        self.nodes.push(node);', 1)]),
+    ('x13-noargs-raised-inside-formal-loop', 'X13', 'syn', 'DefineNoArgs', [
+        (PPF, '        if !define.arguments.is_empty() && no_args {\n            return Err(Error::DefineNoArgs(define.identifier.clone()));\n        }\n\n', '', 1),
+        (PPF, '                    } else {\n                        return Err(Error::DefineArgNotFound(String::from(arg)));',
+         '                    } else if no_args {\n                        return Err(Error::DefineNoArgs(define.identifier.clone()));\n                    } else {\n                        return Err(Error::DefineArgNotFound(String::from(arg)));', 1)]),
     ('s1-version-stack-not-reset', 'S1', 'mir', 'not-reset:CURRENT_VERSION', [(PARSER + 'lib.rs', '    clear_directive();\n    clear_version();\n}', '    clear_directive();\n}', 1)]),
     ('s2-grammar-function-exported', 'S2', 'mir', 'source_text', [(PARSER + 'source_text/system_verilog_source_text.rs', 'pub(crate) fn source_text(s: Span)', 'pub fn source_text(s: Span)', 1)]),
     ('s3-scope-leak-on-error-path', 'S3', 'mir', 'text_macro_usage:unbalanced', [(CD,
